@@ -204,14 +204,14 @@ class FuncGen:
         elif k == "closure0":
             v = self.fresh("c")
             self.emit("%s := func() string { return %s }" % (v, self.s()))
-            self.emit("_ = %s" % v)
+            self.emit("_ = %s()" % v if r.chance(70) else "_ = %s" % v)
             self.funcs0.append(v)
         elif k == "closure1":
             v = self.fresh("d")
             body = r.pick(["return x + %s" % self.s(1), "G1 = x; return %s" % self.s(1), "sink1(x); return x",
                            "return sanitize1(x)"])
             self.emit("%s := func(x string) string { %s }" % (v, body))
-            self.emit("_ = %s" % v)
+            self.emit("_ = %s(%s)" % (v, self.s(1)) if r.chance(70) else "_ = %s" % v)
             self.funcs1.append(v)
         elif k == "gfunc":
             if self.funcs1 and r.chance(60):
@@ -325,8 +325,8 @@ class FuncGen:
 class Program:
     def __init__(self, rng, nfuncs=None, stmts=None):
         self.rng = rng
-        self.nfuncs = nfuncs or (3 + rng.below(10))
-        self.stmts = stmts or (3 + rng.below(8))
+        self.nfuncs = nfuncs or (2 + rng.below(6))
+        self.stmts = stmts or (2 + rng.below(6))
 
     def text(self):
         out = [PRELUDE]
@@ -347,6 +347,14 @@ class Program:
         fg.strs.append(x)
         for _ in range(2 + self.rng.below(self.stmts + 2)):
             fg.stmt()
+        # every function is called from main, so that the whole program is reachable
+        order = list(range(self.nfuncs))
+        for i in range(len(order) - 1, 0, -1):
+            k = self.rng.below(i + 1)
+            order[i], order[k] = order[k], order[i]
+        for i in order:
+            fg.emit("sink1(f%d(%s, %s))" % (i, fg.s(1), fg.st(1)) if self.rng.chance(40)
+                    else "f%d(%s, %s)" % (i, fg.s(1), fg.st(1)))
         out.append("func main() {")
         out += fg.lines
         out.append("}\n")
